@@ -193,6 +193,16 @@ CHECKS = {
         technique="Lean 4 proof over tables regenerated from source (decide over the complete matrix) + exhaustive correspondence",
         design="§4 C15",
     ),
+    "C10": dict(
+        text=("Proof (Lean 4): every value ISIMIP step 6 writes is the lower bound, the upper bound or a value between the thresholds (closed), hence inside the bounds and never strictly between a bound and its threshold - for the whole window (steps 3-7, detrending off) "
+              "and lifted to running-window and month mode; step 5 bounded transfer stays in [a,b]; pr: out = 0 or >= lower_threshold; rsds: the debiased annual cycle and step 8 are non-negative (proved from non-negative data). Precipitation: LinearScaling / DeltaChange multiplicative "
+              "non-negative, hurdle / censored QuantileMapping non-negative, SDM relative 0 or > 0 with its divisor guard, CDFt SSR 0 or >= the smallest positive input for every draw list and delta shift, QDM 0 or >= censoring threshold, incl. year windows. "
+              "Tier B: layer-N correspondences on 16 bounded / pr ISIMIP configurations and the pr debiasers; oracle with the REAL scipy families on gamma-mixture precipitation and beta / Weibull data for all bounded variables."),
+        note=("Guards as hypotheses: Wet (enough in-threshold values: without pseudo-future observations between thresholds the 'left unadjusted' path provably leaves a gap value - theorem step6_gap_without_guard); RangeLaw (a family fitted with floc[/fscale] fixed has support [floc, inf) resp. [floc, floc+fscale]) "
+              "is an ORACLE law proved only for a rational witness family; ParamOk excludes rice / weibull with an upper threshold (no from_variable setting); event likelihood adjustment needs 0 < expit < 1 as an oracle law. Model.Precip is tied to the code by C17's check."),
+        technique="Lean 4 proof over a rational model of the ISIMIP pipeline and the pr transfer functions + differential correspondence",
+        design="§4 C10",
+    ),
 }
 
 
